@@ -61,3 +61,22 @@ pub fn good_point_ops(m: &mut HashMap<i64, String>, k: i64) -> (bool, usize, Opt
 pub fn good_btree_collect(m: HashMap<i64, String>) -> Vec<(i64, String)> {
     m.into_iter().collect::<std::collections::BTreeMap<_, _>>().into_iter().collect()
 }
+
+// a closure that is run per element in hash order and records something about that order
+pub fn bad_retain_last_visited(m: &mut HashMap<i64, String>) -> Option<i64> {
+    let mut last = None;
+    m.retain(|k, _| { last = Some(*k); true });
+    last
+}
+
+pub fn bad_map_counter(m: &HashMap<i64, String>) -> Vec<(i64, usize)> {
+    let mut n = 0usize;
+    let mut v = m.iter().map(|(k, _)| { n += 1; (*k, n) }).collect::<Vec<_>>();
+    v.sort_by_key(|x| x.0);
+    v
+}
+
+pub fn good_retain_pure(m: &mut HashMap<i64, String>) -> usize {
+    m.retain(|k, v| *k >= 0 && !v.is_empty());
+    m.len()
+}
